@@ -100,6 +100,15 @@ func main() {
 				c = genC15(r, gidx, *tier)
 			}
 			runAmoStruct(e, idx, c)
+		case "G02":
+			var c *GoirCase
+			if desc != "" {
+				c = &GoirCase{}
+				mustJSON(desc, c)
+			} else {
+				c = genGoir(r, gidx, *tier)
+			}
+			runGoir(e, idx, c)
 		case "P01", "P02":
 			var p *Prob
 			if desc != "" {
